@@ -79,7 +79,7 @@ TIn ==
 OutMatches ==
   LET x == NextOut IN
   CASE x.k = "data" -> E.k = "data" /\ E.n = x.n /\ E.i = x.i /\ E.sz = x.sz
-    [] x.k = "ack"  -> E.k = "ack" /\ E.n = x.n /\ (Receiving => E.file = file)
+    [] x.k = "ack"  -> E.k = "ack" /\ E.n = x.n /\ ((Receiving /\ ~p.devfull) => E.file = file)
     [] x.k = "err"  -> E.k = "err" /\ E.code = 4
     [] OTHER -> FALSE
 
